@@ -165,18 +165,19 @@ func (s *MemoryStore) Enqueue(env Envelope) error {
 	now := s.nowFn()
 	s.maybePruneLocked(now)
 
+	// Decide which queued items drop_oldest has to evict, but evict nothing
+	// until the new item is known to be storable: a refused enqueue must leave
+	// the queue untouched.
+	var victims []string
 	if s.maxDepth > 0 {
-		activeCount := s.activeCountLocked()
-		activeDeliveredCount := s.activeDeliveredCountLocked()
-		for activeCount >= s.maxDepth || (s.deliveredRetentionMaxAge > 0 && activeDeliveredCount >= s.maxDepth) {
+		if need := s.evictionsNeededLocked(1); need > 0 {
 			if s.dropPolicy != "drop_oldest" {
 				return ErrQueueFull
 			}
-			if !s.dropOldestQueuedLocked() {
+			victims = s.oldestQueuedLocked(need)
+			if len(victims) < need {
 				return ErrQueueFull
 			}
-			activeCount = s.activeCountLocked()
-			activeDeliveredCount = s.activeDeliveredCountLocked()
 		}
 	}
 
@@ -188,8 +189,11 @@ func (s *MemoryStore) Enqueue(env Envelope) error {
 	if env.ID == "" {
 		env.ID = newHexID("evt_")
 	}
-	if _, exists := s.items[env.ID]; exists {
+	if _, exists := s.items[env.ID]; exists && !containsID(victims, env.ID) {
 		return ErrEnvelopeExists
+	}
+	for _, id := range victims {
+		s.evictLocked(id, memoryEvictionReasonDropOldest)
 	}
 	if env.State == "" {
 		env.State = StateQueued
@@ -291,20 +295,25 @@ func (s *MemoryStore) EnqueueBatch(items []Envelope) (int, error) {
 		prepared = append(prepared, &cpy)
 	}
 
-	// Handle depth overflow with drop_oldest.
+	// Handle depth overflow with drop_oldest: pick the victims first and evict
+	// them only once the batch is known to be storable (all-or-nothing).
+	var victims []string
 	if s.maxDepth > 0 {
-		for activeCount+len(prepared) > s.maxDepth || (s.deliveredRetentionMaxAge > 0 && activeDeliveredCount+len(prepared) > s.maxDepth) {
-			if !s.dropOldestQueuedLocked() {
+		if need := s.evictionsNeededLocked(len(prepared)); need > 0 {
+			victims = s.oldestQueuedLocked(need)
+			if len(victims) < need {
 				return 0, ErrQueueFull
 			}
-			activeCount = s.activeCountLocked()
-			activeDeliveredCount = s.activeDeliveredCountLocked()
 		}
 	}
 
 	if pressure := s.memoryPressureStatusLocked(); pressure.Active {
 		s.memoryPressureRejects++
 		return 0, ErrMemoryPressure
+	}
+
+	for _, id := range victims {
+		s.evictLocked(id, memoryEvictionReasonDropOldest)
 	}
 
 	// Commit all items.
@@ -459,16 +468,46 @@ func envelopeRetainedBytes(env *Envelope) int64 {
 	return size
 }
 
-func (s *MemoryStore) dropOldestQueuedLocked() bool {
+// evictionsNeededLocked returns how many queued items must be evicted so
+// that incoming more items fit under max_depth (0 when they already fit).
+func (s *MemoryStore) evictionsNeededLocked(incoming int) int {
+	need := s.activeCountLocked() + incoming - s.maxDepth
+	if s.deliveredRetentionMaxAge > 0 {
+		if n := s.activeDeliveredCountLocked() + incoming - s.maxDepth; n > need {
+			need = n
+		}
+	}
+	if need < 0 {
+		need = 0
+	}
+	return need
+}
+
+// oldestQueuedLocked returns up to n queued item IDs in insertion order
+// without evicting them.
+func (s *MemoryStore) oldestQueuedLocked(n int) []string {
+	out := make([]string, 0, n)
 	for _, id := range s.order {
+		if len(out) >= n {
+			break
+		}
 		env := s.items[id]
-		if env == nil {
+		if env == nil || env.State != StateQueued {
 			continue
 		}
-		if env.State != StateQueued {
+		if containsID(out, id) {
 			continue
 		}
-		return s.evictLocked(id, memoryEvictionReasonDropOldest)
+		out = append(out, id)
+	}
+	return out
+}
+
+func containsID(ids []string, id string) bool {
+	for _, v := range ids {
+		if v == id {
+			return true
+		}
 	}
 	return false
 }
